@@ -205,7 +205,7 @@ def gen_bool(r: random.Random, scope: list[str], depth: int = 2) -> tuple:
 # ("with", [(k, e)], body) ("render", name, var|None, [(k,e)]) ("include", name_e, var|None, [(k,e)])
 # ("macro", name, [(p, default|None)], body) ("call", name, [e], [(k,e)])
 
-TEXTS = ["", " ", "\n", "  \n", "x", "Hello", " a ", "<b>", "é!", "1 ", ", "]
+TEXTS = ["", " ", "\n", "  \n", "x", "Hello", " a ", "<b>", "é!", "1 ", ", ", "\u00a0", "\r\n\u2003y\x1c", "\x0b z\u3000\n"]
 PARTIALS = ["p1", "p2", "p3"]
 
 
@@ -712,25 +712,10 @@ def c_expr(e: tuple) -> str:
     raise ValueError(e)
 
 
-NODE_TAGS = {"content", "contentm", "output", "echo", "assign", "capture", "if", "unless", "case", "for", "break",
+NODE_TAGS = {"content", "contentm", "rawm", "output", "echo", "assign", "capture", "if", "unless", "case", "for", "break",
              "continue", "increment", "decrement", "cycle", "raw", "comment", "with", "render", "include",
              "macro", "call"}
 
-WS = "".join(chr(c) for c in range(0x110000) if chr(c).isspace())
-
-
-def _side(text: str, mode: str, left: bool) -> str:
-    if mode == "-":
-        return text.lstrip(WS) if left else text.rstrip(WS)
-    if mode == "~":
-        return text.lstrip("\r\n") if left else text.rstrip("\r\n")
-    return text
-
-
-def py_trim(text: str, mode: str, sides: tuple[str, str] = ("", "")) -> str:
-    """Documented whitespace control (harness-side reference): each side of a text
-    is trimmed as the marker facing it says, the default mode where there is none."""
-    return _side(_side(text, sides[0] or mode, True), sides[1] or mode, False)
 
 
 def is_block(x: Any) -> bool:
@@ -758,10 +743,10 @@ def _mast(x: Any, mode: str, it: Any) -> Any:
         res = []
         for n in x:
             if n[0] == "content":
-                res.append(("contentm", py_trim(n[1], mode, next(it) if it is not None else ("", "")), n[1].isspace()))
+                res.append(("contentm", n[1], mode, next(it) if it is not None else ("", "")))
             elif n[0] == "raw":
                 # RawTag.parse trims the inner text with the tag's inner markers
-                res.append(("raw", py_trim(n[1], mode, next(it) if it is not None else ("", ""))))
+                res.append(("rawm", n[1], mode, next(it) if it is not None else ("", "")))
             else:
                 res.append(_mast(n, mode, it))
         return res
@@ -786,13 +771,26 @@ def c_kw(args: list[tuple]) -> str:
     return C.clist([C.cpair(C.cstr(k), c_expr(v)) for k, v in args], "(str * expr)")
 
 
+_WC = {"": "Trim.Default", "+": "Trim.Plus", "-": "Trim.Minus", "~": "Trim.Tilde"}
+
+
+def c_trim(text: str, mode: str, sides: tuple[str, str]) -> str:
+    if mode == "+" and sides in (("", ""), ("+", "+")):
+        return C.cstr(text)
+    return f"Trim.trim {_WC[mode]} {C.cstr(text)} {_WC[sides[0]]} {_WC[sides[1]]}"
+
+
 def c_node(n: tuple) -> str:
     t = n[0]
     if t == "content":
         blank = (not n[1]) or n[1].isspace()
         return f"(NContent {C.cstr(n[1])} {C.cbool(blank)})"
     if t == "contentm":
-        return f"(NContent {C.cstr(n[1])} {C.cbool(n[2])})"
+        # the text as Environment.trim leaves it (Kernels/Trim.v, the C18 kernel) and
+        # the blank flag of the untrimmed text (str.isspace)
+        return f"(NContent ({c_trim(n[1], n[2], n[3])}) (Trim.py_isspace {C.cstr(n[1])}))"
+    if t == "rawm":
+        return f"(NRaw ({c_trim(n[1], n[2], n[3])}))"
     if t == "output":
         return f"(NOutput {c_expr(n[1])})"
     if t == "echo":
